@@ -138,9 +138,10 @@ func batchToRequests(connectionGroup []builderSlotGroup) []requestBatch {
 				batch.UnitID = unitID
 			}
 
-			slotEndAddress := slotAddress + slot.size
-			addressDiff := slotEndAddress - firstAddress
-			if addressDiff > addressLimit {
+			// NB: end address of last register/coil (65535) is 65536, which does not fit into uint16
+			slotEndAddress := uint32(slotAddress) + uint32(slot.size)
+			addressDiff := slotEndAddress - uint32(firstAddress)
+			if addressDiff > uint32(addressLimit) {
 				result = append(result, batch)
 
 				batch = requestBatch{
@@ -149,10 +150,10 @@ func batchToRequests(connectionGroup []builderSlotGroup) []requestBatch {
 					StartAddress: slotAddress,
 				}
 				firstAddress = slotAddress
-				addressDiff = slot.size
+				addressDiff = uint32(slot.size)
 			}
-			if batch.Quantity < addressDiff {
-				batch.Quantity = addressDiff
+			if uint32(batch.Quantity) < addressDiff {
+				batch.Quantity = uint16(addressDiff)
 			}
 
 			batch.fields = append(batch.fields, slot.fields...)
